@@ -2032,6 +2032,17 @@ func GenFull(t *rapid.T, f FullFeatures) *FullCase {
 		}
 		g.class("forward-reference:shuffled-declarations")
 	}
+	// known finding C17-1 (tag workgroup-size.const.forward-reference): @workgroup_size(NAME) with NAME
+	// declared later in the file is silently read as 1; with the tag on the constant is declared first.
+	if g.is("workgroup-size.const.forward-reference") {
+		for i, d := range g.decls {
+			if strings.HasPrefix(d, "const WG_X") {
+				copy(g.decls[1:i+1], g.decls[:i])
+				g.decls[0] = d
+				break
+			}
+		}
+	}
 	g.resourceMetadata()
 	c := g.c
 	c.Src = strings.Join(g.decls, "\n") + "\n"
